@@ -91,20 +91,20 @@ theorem typedef_name_makes_a_declaration {env : Env} (T x : String) (hx : env.ty
                .none, .none]] s' ∧
       SeesT env s' (("RBRACE", "}") :: rest) := by
   let dc : Dcl := { specs := [("TYPEID", T)], first := { d := .ptr [[]] (.name x), init := none }, more := [] }
-  have hwf : ∀ it ∈ [Item.decl dc], WFItem it := by
-    intro it hit; simp only [List.mem_singleton] at hit; subst hit
+  have hwd : WFDcl dc := by
     refine ⟨by simp [dc, SpecToks], ?_, by simp [dc, sawAfter, isTypeTok], ⟨.ptr _ _ (by simp) (by simp) (.name _) rfl, by intro e h; cases h⟩, by intro it h; cases h⟩
     intro t ht; simp only [dc, List.mem_singleton] at ht; subst ht
     exact ⟨by simp [storageClass], by simp [typeQualifier]⟩
-  have hv : [] ++ itemsVals s.idx [Item.decl dc] =
+  have hwf : WFSL env.ty (.consD dc .nil) :=
+    .consD _ _ hwd (by intro y hy; simp [Dcl.names, dc, dName] at hy; subst hy; exact hx) .nil
+  have hv : [] ++ SL.vals s.idx (.consD dc .nil) =
       [mk .Decl (tc (s.idx + 1)) [.str x, .list [], .list [], .list [], .list [],
                mk .PtrDecl (tc (s.idx + 1)) [.list [],
                  mk .TypeDecl (tc (s.idx + 2)) [.str x, .list [], .none, mk .IdentifierType (tc s.idx) [.list [.str T]]]],
                .none, .none]] := rfl
-  have hf : itemsFuel [Item.decl dc] ≤ 60 := Nat.le_of_ble_eq_true rfl
-  obtain ⟨s', hr, hs', _⟩ := items_loop [.decl dc] [] s rest 60 hwf
-    (by intro y hy; simp [itemsNames, Item.names, Dcl.names, dc, dName] at hy; subst hy; exact hx)
-    (by simpa [itemsFlat, Item.flat, Dcl.flat, Dcl.body, dc, IDc.flat, DeclSkel.D.flat, starsFlat, restFlat] using hs)
+  have hf : (SL.consD dc .nil).fuel ≤ 60 := Nat.le_of_ble_eq_true rfl
+  obtain ⟨s', hr, hs', _⟩ := all_sl (.consD dc .nil) [] s rest 60 hwf
+    (by simpa [SL.flat, Dcl.flat, Dcl.body, dc, IDc.flat, DeclSkel.D.flat, starsFlat, restFlat] using hs)
     hf
   exact ⟨s', hv ▸ hr, hs'⟩
 
@@ -116,11 +116,9 @@ theorem ordinary_name_makes_an_expression {env : Env} (T x : String) (s : PState
         .ok [mk .BinaryOp (tc s.idx) [.str "*", mk .ID (tc s.idx) [.str T], mk .ID (tc (s.idx + 2)) [.str x]]] s' ∧
       SeesT env s' (("RBRACE", "}") :: rest) := by
   let st : S := .expr (.bin "TIMES" "*" (.id T) (.id x))
-  have hwf : ∀ it ∈ [Item.stmt st], WFItem it := by
-    intro it hit; simp only [List.mem_singleton] at hit; subst hit
-    exact .expr _ (.bin 0 9 _ _ _ _ (by decide) (by decide) (.id _ _) (.id _ _))
-  obtain ⟨s', hr, hs', _⟩ := items_loop [.stmt st] [] s rest 60 hwf
-    (by intro y hy; simp [itemsNames, Item.names] at hy)
+  have hwf : WFSL env.ty (.cons st .nil) :=
+    .cons _ _ (.expr _ (.bin 0 9 _ _ _ _ (by decide) (by decide) (.id _ _) (.id _ _))) .nil
+  obtain ⟨s', hr, hs', _⟩ := all_sl (.cons st .nil) [] s rest 60 hwf
     (by exact hs)
     (Nat.le_of_ble_eq_true rfl)
   exact ⟨s', hr, hs'⟩
